@@ -145,13 +145,13 @@ func (m *ModSets) addrComps(fn *ssa.Function, v ssa.Value) []string {
 func inModule(fn *ssa.Function) bool {
 	for f := fn; f != nil; f = f.Parent() {
 		if f.Pkg != nil {
-			return strings.HasPrefix(f.Pkg.Pkg.Path(), modPath)
+			return isModPath(f.Pkg.Pkg.Path())
 		}
 	}
 	// methods of instantiated generics / wrappers: look at the receiver's package
 	if fn.Signature != nil && fn.Signature.Recv() != nil {
 		if n, ok := deref(fn.Signature.Recv().Type()).(*types.Named); ok && n.Obj().Pkg() != nil {
-			return strings.HasPrefix(n.Obj().Pkg().Path(), modPath)
+			return isModPath(n.Obj().Pkg().Path())
 		}
 	}
 	return false
@@ -183,7 +183,7 @@ func (m *ModSets) staticCallees(call *ssa.CallCommon) (fns []*ssa.Function, lib 
 		// an interface declared outside the module may have foreign implementations
 		ifaceInModule := false
 		if n, ok := types.Unalias(call.Value.Type()).(*types.Named); ok && n.Obj().Pkg() != nil {
-			ifaceInModule = strings.HasPrefix(n.Obj().Pkg().Path(), modPath)
+			ifaceInModule = isModPath(n.Obj().Pkg().Path())
 		}
 		return fns, !ifaceInModule || !found
 	}
